@@ -199,11 +199,12 @@ def anytime(
                     times_lower_bound_activated += 1
                     continue
             if use_set_of_seen_states: 
-                if new_sums in seen_states:
+                new_state = (depth+1,) + new_sums   # with zero-valued items, the same sums can occur at different depths
+                if new_state in seen_states:
                     logger.debug("    State %s already seen", new_sums)
                     times_seen_state_skipped += 1
                     continue
-                seen_states.add(new_sums)   # should be after if use_lower_bound
+                seen_states.add(new_state)   # should be after if use_lower_bound
 
             new_vertex = (new_bins, depth + 1)
             stack.append(new_vertex)
